@@ -960,6 +960,13 @@ class Interp:
             return fold(ast.UnaryOp(op=node.op, operand=ast.Constant(value=v)))
         return S(('unop', type(node.op).__name__, term(v)), 'int')
 
+    def _is_repo_class(self, name):
+        try:
+            r = self.repo.resolve_name(self.modname, name)
+            return bool(r) and r[1] in self.repo.mod(r[0]).classes
+        except Exception:
+            return False
+
     def e_BoolOp(self, node, st):
         is_and = isinstance(node.op, ast.And)
         acc = []
@@ -1418,7 +1425,7 @@ class Interp:
                 return t
             return S(t, 'bool')
         if name == 'isinstance' and len(args) == 2 and is_conc(args[0]) and not isinstance(args[0], (list, dict)) or \
-                (name == 'isinstance' and len(args) == 2 and isinstance(args[0], (list, dict)) and is_conc(args[0])):
+                (name == 'isinstance' and len(args) == 2 and isinstance(args[0], (list, dict))):
             tymap = {'int': int, 'list': list, 'str': str, 'bytes': bytes, 'bool': bool, 'tuple': tuple, 'dict': dict, 'float': float, 'TYPE_TEXT': str}
             spec = args[1]
             names = None
@@ -1428,6 +1435,11 @@ class Interp:
                 names = [x.t[1] for x in spec]
             if names is not None:
                 return isinstance(args[0], tuple(tymap[n] for n in names))
+            # a builtin constant is never an instance of a class defined in the package
+            specs = list(spec) if isinstance(spec, tuple) else [spec]
+            if not isinstance(args[0], (list, dict)) and specs and all(
+                    isinstance(x, S) and isinstance(x.t, tuple) and x.t[0] == 'global' and self._is_repo_class(x.t[1]) for x in specs):
+                return False
         if name == 'isinstance' and len(args) == 2:
             a = args[0]
             if is_conc(a) and isinstance(args[1], S):
